@@ -251,3 +251,184 @@ Proof.
   - rewrite HN. cbn. lia.
   - exists b. split; [assumption|]. cbn [app] in Hr. apply (b_push_rep_full b xs y Hr). congruence.
 Qed.
+
+(* ------------------------------------------------------------------ consumer histories *)
+
+(** take from the front / from the back *)
+Inductive cend : Type := Fr | Bk.
+
+(** run a history of takes; returns the elements handed out from the front (in take order),
+    those handed out from the back (in take order) and the consumer afterwards; [None] = UB.
+    Taking from an exhausted consumer yields nothing and changes nothing. *)
+Fixpoint c_takes (c : consumer) (h : list cend) : option (list Z * list Z * consumer) :=
+  match h with
+  | [] => Some ([], [], c)
+  | e :: h' =>
+      match (match e with Fr => c_next c | Bk => c_next_back c end) with
+      | None => None
+      | Some (o, c') =>
+          match c_takes c' h' with
+          | None => None
+          | Some (fs, bs, c'') =>
+              match o, e with
+              | None, _ => Some (fs, bs, c'')
+              | Some x, Fr => Some (x :: fs, bs, c'')
+              | Some x, Bk => Some (fs, x :: bs, c'')
+              end
+          end
+      end
+  end.
+
+Lemma list_snoc_cases {A} (l : list A) : l = [] \/ exists r x, l = r ++ [x].
+Proof.
+  destruct l as [|a l]; [now left | right]. destruct (exists_last (l := a :: l)) as [r [x H]];
+    [discriminate | eauto].
+Qed.
+
+(** the invariant is preserved by every history, no take is UB, and the elements are
+    partitioned: front takes are a prefix of the original order, back takes the reversed
+    suffix, and what a final drop destroys is exactly the middle, in order *)
+Theorem consumer_takes_partition : forall h c live, c_rep c live ->
+  exists fs bs c' mid,
+    c_takes c h = Some (fs, bs, c') /\ c_rep c' mid /\ c_cap c' = c_cap c /\
+    live = fs ++ mid ++ rev bs /\
+    c_drop c' = Some (map Drop mid).
+Proof.
+  induction h as [|e h IH]; intros c live Hrep.
+  - exists [], [], c, live. cbn. rewrite app_nil_r. repeat split; auto using c_drop_rep.
+  - cbn [c_takes]. destruct e.
+    + destruct live as [|x r].
+      * rewrite (c_next_rep_nil _ Hrep).
+        destruct (IH c [] Hrep) as [fs [bs [c' [mid [Ht [Hr [Hc [Hl Hd]]]]]]]].
+        rewrite Ht. exists fs, bs, c', mid. auto.
+      * destruct (c_next_rep_cons _ _ _ Hrep) as [c1 [Hn [Hr1 Hc1]]]. rewrite Hn.
+        destruct (IH c1 r Hr1) as [fs [bs [c' [mid [Ht [Hr [Hc [Hl Hd]]]]]]]].
+        rewrite Ht. exists (x :: fs), bs, c', mid. repeat split; auto; try congruence.
+        cbn. now rewrite Hl.
+    + destruct (list_snoc_cases live) as [-> | [r [x ->]]].
+      * rewrite (c_next_back_rep_nil _ Hrep).
+        destruct (IH c [] Hrep) as [fs [bs [c' [mid [Ht [Hr [Hc [Hl Hd]]]]]]]].
+        rewrite Ht. exists fs, bs, c', mid. auto.
+      * destruct (c_next_back_rep_snoc _ _ _ Hrep) as [c1 [Hn [Hr1 Hc1]]]. rewrite Hn.
+        destruct (IH c1 r Hr1) as [fs [bs [c' [mid [Ht [Hr [Hc [Hl Hd]]]]]]]].
+        rewrite Ht. exists fs, (x :: bs), c', mid. repeat split; auto; try congruence.
+        cbn [rev]. rewrite Hl, <- !app_assoc. reflexivity.
+Qed.
+
+(* ------------------------------------------------------------------ map_! / from_fn_! *)
+
+(** [ys] are the values of consecutive evaluations k, k+1, .. of the body on [xs] *)
+Fixpoint vals_from (clo : nat -> Z -> outcome) (k : nat) (xs ys : list Z) : Prop :=
+  match xs, ys with
+  | [], [] => True
+  | x :: r, y :: t => clo k x = OValue y /\ vals_from clo (S k) r t
+  | _, _ => False
+  end.
+
+Lemma vals_from_length clo : forall xs ys k, vals_from clo k xs ys -> length xs = length ys.
+Proof.
+  induction xs as [|x r IH]; intros [|y t] k H; cbn in *; try contradiction; try reflexivity.
+  destruct H as [_ H]. f_equal. eauto.
+Qed.
+
+Definition tr_hands (track : bool) (l : list Z) : list event := if track then map Hand l else [].
+
+(** the loop of [__array_map2__with_parsed_closure], started with [rest] still in the
+    consumer and [outs] already in the builder: it never reads a moved-out slot, never runs
+    out of fuel, and when it evaluates to an array, that array is full, consists of [outs]
+    followed by one value per remaining element, produced by consecutive evaluations; every
+    remaining input was handed to the closure exactly once, in order; nothing was dropped
+    or leaked. *)
+Lemma map_loop_inv : forall fuel clo track k c b ev rest outs,
+  c_rep c rest -> b_rep b outs -> length outs + length rest <= b_cap b -> length rest < fuel ->
+  match map_loop fuel clo track k c b ev with
+  | (r, ev', leak) =>
+      r <> MUB /\ r <> MDiverged /\
+      (r = MReturned -> leak = []) /\
+      (forall l, r = MBuilt l ->
+         exists ys, l = outs ++ ys /\ vals_from clo k rest ys /\ length l = b_cap b /\
+                    leak = [] /\ ev' = ev ++ tr_hands track rest ++ map Hand l)
+  end.
+Proof.
+  induction fuel as [|fuel IH]; intros clo track k c b ev rest outs Hc Hb Hroom Hfuel; [lia|].
+  cbn [map_loop]. destruct rest as [|x r].
+  - (* exhausted: forget the (empty) consumer, build *)
+    rewrite (c_next_rep_nil _ Hc). unfold map_finish.
+    rewrite (c_as_slice_rep _ _ Hc), (b_build_rep _ _ Hb).
+    destruct (length outs =? b_cap b) eqn:He.
+    + repeat split; try discriminate. intros l Hl. inversion Hl; subst l.
+      exists []. rewrite app_nil_r. apply Nat.eqb_eq in He. cbn. destruct track; cbn; auto.
+    + rewrite (b_drop_rep _ _ Hb). repeat split; try discriminate.
+  - destruct (c_next_rep_cons _ _ _ Hc) as [c1 [Hn [Hc1 Hcap1]]]. rewrite Hn.
+    cbn [length] in *.
+    destruct (clo k x) as [y| | | |] eqn:Hclo.
+    + (* value: push *)
+      destruct (b_push_rep_room b outs y Hb) as [b1 [Hp [Hb1 Hbc]]]; [lia|]. rewrite Hp.
+      specialize (IH clo track (S k) c1 b1 (ev ++ in_ev track (Hand x)) r (outs ++ [y]) Hc1 Hb1).
+      rewrite app_length, Hbc in IH. cbn [length] in IH.
+      specialize (IH ltac:(lia) ltac:(lia)).
+      destruct (map_loop fuel clo track (S k) c1 b1 (ev ++ in_ev track (Hand x))) as [[r' ev'] leak].
+      destruct IH as [H1 [H2 [H3 H4]]]. repeat split; try assumption.
+      intros l Hl. destruct (H4 l Hl) as [ys [Hys [Hv [Hlen [Hleak Hev]]]]].
+      exists (y :: ys). rewrite <- app_assoc in Hys. cbn [app] in Hys.
+      repeat split; try assumption. rewrite Hev, <- !app_assoc. f_equal.
+      destruct track; reflexivity.
+    + (* break: the rest of the consumer is forgotten; build panics (not full) *)
+      unfold map_finish. rewrite (c_as_slice_rep _ _ Hc1), (b_build_rep _ _ Hb).
+      replace (length outs =? b_cap b) with false by (symmetry; apply Nat.eqb_neq; lia).
+      rewrite (b_drop_rep _ _ Hb). repeat split; try discriminate.
+    + (* continue: the element is dropped, nothing is pushed; the builder ends under-full *)
+      specialize (IH clo track (S k) c1 b (ev ++ in_ev track (Drop x)) r outs Hc1 Hb ltac:(lia) ltac:(lia)).
+      destruct (map_loop fuel clo track (S k) c1 b (ev ++ in_ev track (Drop x))) as [[r' ev'] leak].
+      destruct IH as [H1 [H2 [H3 H4]]]. repeat split; try assumption.
+      intros l Hl. exfalso. destruct (H4 l Hl) as [ys [Hys [Hv [Hlen _]]]].
+      apply vals_from_length in Hv. subst l. rewrite app_length in Hlen. lia.
+    + unfold map_unwind. rewrite (b_drop_rep _ _ Hb), (c_drop_rep _ _ Hc1).
+      repeat split; try discriminate.
+    + unfold map_unwind. rewrite (b_drop_rep _ _ Hb), (c_drop_rep _ _ Hc1).
+      repeat split; try discriminate.
+Qed.
+
+(** array::map_!: when it evaluates to an array, the array has the input's length, element i
+    is what the i-th evaluation of the body produced from input element i, every input
+    element was handed to the body exactly once, in order, the outputs are handed to the
+    caller in order, and nothing was dropped or leaked. It never reads a moved-out slot. *)
+Theorem map_by_val_built : forall clo ids,
+  match map_by_val clo ids with
+  | (r, ev, leak) =>
+      r <> MUB /\ r <> MDiverged /\ (r = MReturned -> leak = []) /\
+      (forall l, r = MBuilt l ->
+         vals_from clo 0 ids l /\ length l = length ids /\ leak = [] /\
+         ev = map Hand ids ++ map Hand l)
+  end.
+Proof.
+  intros clo ids. unfold map_by_val.
+  assert (Hcap : b_cap (b_new (length ids)) = length ids)
+    by (unfold b_cap, b_new; cbn; apply repeat_length).
+  pose proof (map_loop_inv (S (length ids)) clo true 0 (c_new ids) (b_new (length ids)) [] ids []
+                (c_new_rep ids) (b_new_rep _)) as H.
+  rewrite Hcap in H. specialize (H ltac:(cbn; lia) ltac:(lia)).
+  destruct (map_loop (S (length ids)) clo true 0 (c_new ids) (b_new (length ids)) []) as [[r ev] leak].
+  destruct H as [H1 [H2 [H3 H4]]]. repeat split; try assumption;
+    destruct (H4 l H) as [ys [Hys [Hv [Hlen [Hleak Hev]]]]]; cbn [app] in *; subst; auto.
+Qed.
+
+Theorem from_fn_by_val_built : forall clo N,
+  match from_fn_by_val clo N with
+  | (r, ev, _) =>
+      r <> MUB /\ r <> MDiverged /\
+      (forall l, r = MBuilt l ->
+         length l = N /\ ev = map Hand l /\
+         vals_from (fun k _ => clo k (Z.of_nat k)) 0 (repeat 0%Z N) l)
+  end.
+Proof.
+  intros clo N. unfold from_fn_by_val.
+  assert (Hcap : b_cap (b_new N) = N) by (unfold b_cap, b_new; cbn; apply repeat_length).
+  pose proof (map_loop_inv (S N) (fun k _ => clo k (Z.of_nat k)) false 0 (c_new (repeat 0%Z N))
+                (b_new N) [] (repeat 0%Z N) [] (c_new_rep _) (b_new_rep _)) as H.
+  rewrite Hcap, repeat_length in H. specialize (H ltac:(cbn; lia) ltac:(lia)).
+  destruct (map_loop (S N) (fun k _ => clo k (Z.of_nat k)) false 0 (c_new (repeat 0%Z N)) (b_new N) [])
+    as [[r ev] leak].
+  destruct H as [H1 [H2 [H3 H4]]]. repeat split; try assumption;
+    destruct (H4 l H) as [ys [Hys [Hv [Hlen [Hleak Hev]]]]]; cbn [app tr_hands] in *; subst; auto.
+Qed.
